@@ -227,9 +227,9 @@ func populate(r *vh.Rand, n *node, sc scenario, salt int) {
 		n.mgr.AddLocalRoute(cidr(salt*100000+i, i%5 == 4), uint16(r.Pick(0, 0, 1, 5, 1000)))
 	}
 	for i := 0; i < sc.NDomain; i++ {
-		if !n.mgr.AddLocalDomainRoute(domainPattern(r, salt*100000+i, sc.LongDom), uint16(r.Pick(0, 0, 1, 7))) {
-			panic("harness: generated domain pattern rejected")
-		}
+		// a pattern the wire format cannot carry (> 255 bytes) must be refused here;
+		// whatever is accepted must arrive (the expected set is read back from the tables)
+		n.mgr.AddLocalDomainRoute(domainPattern(r, salt*100000+i, sc.LongDom), uint16(r.Pick(0, 0, 1, 7)))
 	}
 	for i := 0; i < sc.NForward; i++ {
 		key := fmt.Sprintf("k%d-%s", salt*100000+i, label(r, max(0, sc.LongFwd-8)))
@@ -468,6 +468,9 @@ func main() {
 		{Kind: "announce", Name: "300-mixed", NCIDR: 100, NDomain: 100, NForward: 100, LongDom: 12, LongFwd: 6, NameLen: 4},
 		{Kind: "announce", Name: "70-long-domains", NDomain: 70, LongDom: 250, NameLen: 4},
 		{Kind: "announce", Name: "40-long-forwards", NForward: 40, LongFwd: 240, NameLen: 255},
+		{Kind: "announce", Name: "display-name-300-bytes", NCIDR: 3, NDomain: 2, LongDom: 12, NameLen: 300},
+		{Kind: "announce", Name: "domain-patterns-300-bytes", NCIDR: 2, NDomain: 3, LongDom: 300, NameLen: 4},
+		{Kind: "announce", Name: "forward-keys-300-bytes", NCIDR: 2, NForward: 3, LongFwd: 300, NameLen: 4},
 		{Kind: "full-table", Name: "two-origins-300-each", NCIDR: 300, NDomain: 3, NForward: 3, LongDom: 12, LongFwd: 6, Origins: 2, NameLen: 4},
 		{Kind: "full-table", Name: "long-domains", NDomain: 80, LongDom: 250, LongFwd: 6, Origins: 1, NameLen: 4},
 	}
@@ -483,8 +486,8 @@ func main() {
 	small := []int{0, 0, 1, 2, 3, 10, 40}
 	n := c.N(24, 600)
 	for i := 0; i < n; i++ {
-		sc := scenario{Kind: "announce", CaseSeed: int64(c.Rand.U64() >> 1), NameLen: c.Rand.Pick(0, 1, 8, 254, 255),
-			LongDom: c.Rand.Pick(8, 12, 30, 100, 200, 250, 253), LongFwd: c.Rand.Pick(1, 6, 30, 120, 240, 249)}
+		sc := scenario{Kind: "announce", CaseSeed: int64(c.Rand.U64() >> 1), NameLen: c.Rand.Pick(0, 1, 8, 254, 255, 256, 300),
+			LongDom: c.Rand.Pick(8, 12, 30, 100, 200, 250, 253, 255, 256, 300), LongFwd: c.Rand.Pick(1, 6, 30, 120, 240, 249, 250, 251, 300)}
 		switch c.Rand.Intn(5) {
 		case 0:
 			sc.NCIDR = sizes[c.Rand.Intn(len(sizes))]
